@@ -31,7 +31,17 @@ SESSIONS = [("/d/f.txt", "a:x,w,q"), ("/d/f.txt", "a:x,x"), ("/d/f.txt", "a:x,w:
             ("/d/nofile", "a:y,w:out2,e:out2,r:out2,x"), ("/d/../x", "a:x,w,f:/d/f.txt,w,x"),
             ("/d", "w,a:x,w,x,Q"), ("/d/f.txt", "r,r:/d/nofile,w:/d/sub,w:/d/sub/n,x"),
             ("/d/f.txt", "f:/../outside.txt,w,e:/../outside.txt,r://abs,w:/d/../x,Q"), ("/d/f.txt", "q,w"),
-            ("/d/f.txt", "a:1,a:2,W,W:/d/f.txt,e,E,f,x")]
+            ("/d/f.txt", "a:1,a:2,W,W:/d/f.txt,e,E,f,x"),
+            # the user goes net-dead: save_ed_buffer writes where the master's get_save_file_name () says
+            ("/d/f.txt", "a:x,D:/d/dead"), ("/d/f.txt", "a:x,D:/../outside_dead"), ("/d/f.txt", "D://nonexistent-c15/abs"),
+            ("/d/nofile", "D:/d/sub/"), ("/d/f.txt", "a:x,w,D:/d/./dead"), ("/d/f.txt", "a:y,D:d/dead#1"), ("/d/f.txt", "D:/d/sub/.."),
+            ("/d/f.txt", "a:x,D:dead,w")]
+# RE-ENTRANT masters: valid_read / valid_write call a file efun themselves (consult an access list, log the request)
+# before they answer like <kind>
+POL_NEST = ["nested=[read_file,/a/a,allow]", "nested=[file_size,/d,allow]", "nested=[write_file,/aa,allow]",
+            "nested=[tail,/d/inc.h,echo]", "nested=[read_file,/d/inc.h,deny]", "nested=[read_file,/a/a,fixed,/d/f.txt]",
+            "nested=[read_file,/../outside.txt,allow]", "nested=[file_size,/d/nofile,ro]", "nested=[read_file,/a/a,raise]",
+            "nested=[read_file,/d/f.txt,allow]", "nested=[tail,/a/a,wo]", "nested=[write_file,/aa,odd,neg]"]
 POL_FEW = ["deny", "fixed=[/a/a]", "fixed=[/d]", "fixed=[/../outside.txt]", "fixed=[//nonexistent-c15/x/y]",
            "fixed=[/d/new]", "fixed=[]"]
 INC_BASES = ["x.c", "t/x.c", "t/u/x.c"]
@@ -128,7 +138,7 @@ class C15(Prop):
                 "NV.C15.save_tmp_format",
                 "NV.C15.mediated_sites", "NV.C15.inventory_covers_efuns", "NV.C15.efun_surface_modelled",
                 "NV.C15.ext_callees_classified", "NV.C15.fs_callees_cover", "NV.C15.path_function_literals",
-                "NV.C15.efun_libc_table", "NV.C15.binary_model_satisfies_spec", "NV.C15.history_satisfies_spec", "NV.C15.judge_il_model",
+                "NV.C15.efun_libc_table", "NV.C15.binary_model_satisfies_spec", "NV.C15.history_satisfies_spec", "NV.C15.nested_ok", "NV.C15.segOk_askEv", "NV.C15.static_bufs_classified", "NV.C15.inc_list_stores_guarded", "NV.C15.nest_single_ok", "NV.C15.judge_il_model",
                 "NV.C15.include_path_confined_any_config",
                 "NV.C15.buffer_sizes", "NV.C15.buffer_guards_present", "NV.C15.getdir_path_not_truncated",
                 "NV.C15.getdir_entry_fits", "NV.C15.getdir_long_path_refused", "NV.C15.ed_getfn_exact",
@@ -157,15 +167,19 @@ class C15(Prop):
                   "efun entry points (incl. get_dir/stat with flag -1, rename/link/cp into directories, save/restore_object, "
                   "the ed efun and its file commands): legal_path accepts exactly the relative paths without '#', without a "
                   "'..' component and with '.' only last; every path returned by check_valid_path, opened by load_object or "
-                  "#include is relative and free of '..'; the oracle accepts the model trace of every efun call and editing "
-                  "session (model_satisfies_spec: each libc call is preceded by an approval of the right kind of exactly "
+                  "#include is relative and free of '..'; the oracle accepts the model trace of every efun call, every HISTORY "
+                  "of calls and every editing session incl. the net-dead save, for every master policy including RE-ENTRANT "
+                  "masters whose valid_read / valid_write call file efuns themselves (nested calls have their own approvals: "
+                  "nested_ok) (model_satisfies_spec, history_satisfies_spec: each libc call is preceded by an approval of the right kind of exactly "
                   "that path or a listed derivation of it); no path is cut after its approval and every path copy fits its C "
                   "buffer (sizes and guards regenerated from the source); symbolic links created by link() have safe targets "
                   "and expansion through such links stays confined. Regenerated on every run and decided in Lean: the "
                   "inventory of every libc file call in lib/efuns, lib/lpc/object.c, src/simulate.c, lib/lpc/lex.c, "
                   "binaries.c (each path argument flows from check_valid_path / a PRECEDING legal_path / inc_open or is on a "
                   "justified allow-list), the libc function each function calls, every check_valid_path call's operation and "
-                  "write flag, the literals of 5 string functions, buffer sizes / guard expressions, and the list of external "
+                  "write flag, the literals of 5 string functions, buffer sizes / guard expressions (incl. inc_open's scan and "
+                  "fallback), every static character array of these files (none may carry a path across the master apply), "
+                  "every store into inc_list (guarded by a preceding legal_path), and the list of external "
                   "char*-taking callees (fail closed). The model is tied to the source by an exhaustive differential run of "
                   "the real functions over {a . / #}^<=7 (quick) / <=9 (thorough) and by system-style runs of every file "
                   "efun x path set (incl. lengths at the buffer boundaries) x master policy with libc interposed; the Lean "
@@ -185,15 +199,20 @@ class C15(Prop):
             "include normaliser (3 including files) + seeded random long paths, efun calls, editing sessions and object "
             "names; one batch case carries up to 4096 strings; master policies: deny, allow, echo, fixed (legal / illegal / "
             "absolute / empty / longer than the buffers), raise, raiseon, odd return types, read-only, write-only, per-path "
-            "read-only, and a master without valid_read/valid_write; every branch of the efun models is hit (evidence "
+            "read-only, RE-ENTRANT masters (valid_read / valid_write call read_file / file_size / tail / write_file on another path, "
+            "then allow / deny / rewrite / raise ...), and a master without valid_read/valid_write; editing sessions incl. the "
+            "net-dead save (D:name); every branch of the efun models is hit (evidence "
             "histogram.branches); a case is non-trivial when its trace has >= 2 lines; distinct = distinct canonical trace")
     not_covered = ["symbolic links are not FOLLOWED in a run (link() targets are judged; symlinks_confined is the theorem); "
                    "links placed in the mudlib by the administrator are outside the statement",
                    "SaveBinaryDir / #pragma save_binary (binaries.c): observed (unsafe paths, binary exists) but its call "
                    "sequence is not modelled and not judged for mediation (no master consultation exists there)",
-                   "do_move's EXDEV fallback (copy + unlink) and save_ed_buffer (net-dead editor) are inventoried, not executed",
+                   "do_move's EXDEV fallback (copy + unlink) is inventoried, not executed",
+                   "re-entrant masters: the nested call is one of read_file / file_size / tail / write_file, one level deep "
+                   "(the master asked by its own call answers 1); nested get_dir / rename / ed are not generated",
+                   "the valid_link consultation of link() is compared (order, arguments) but not judged",
                    "Windows branches (':' test of legal_path, O_TEXT, FindFirstFile) are not compiled here",
-                   "handle_include's buf[1024] / macro includes (C02) and log file names (lib/logger, configuration) are not "
+                   "handle_include's buf[1024] / include depth (C02) and log file names (lib/logger, configuration) are not "
                    "part of this check",
                    "listing the mudlib ROOT with flag -1 is compared only for the fixture's entries (the root holds the "
                    "framework's own files)"]
@@ -275,6 +294,8 @@ class C15(Prop):
         env = {"MAX_PATH_LEN": macro(fu, "file_utils.c", "MAX_PATH_LEN"),
                "MAX_FNAME_SIZE": macro(fu, "file_utils.c", "MAX_FNAME_SIZE"),
                "MAXFNAME": macro(edh, "ed.h", "MAXFNAME")}
+        lx = src("lib/lpc/lex.c")
+        b_io = body(lx, "lex.c", "inc_open")
         bn = src("lib/lpc/program/binaries.c")
         b_sb, b_lb = body(bn, "binaries.c", "save_binary"), body(bn, "binaries.c", "load_binary")
         b_gd, b_rn, b_cp, b_fn, b_es = (body(fu, "file_utils.c", "get_dir"), body(fu, "file_utils.c", "do_rename"),
@@ -304,6 +325,13 @@ class C15(Prop):
                   ("getfn", b_fn, "strlen (file2) >= MAXFNAME"),
                   ("getfn", b_fn, "strncpy (file, ret->u.string, sizeof file - 1)"),
                   ("ed_start", b_es, "strncpy (P_FNAME, file_arg, MAXFNAME - 1)"),
+                  # inc_open: what is normalised, what is tested, what the ".." scan runs over, what the fallback opens
+                  ("inc_open", b_io, "inc_lexically_normal (current_file, name, buf)"),
+                  ("inc_open", b_io, "legal_path (buf)"),
+                  ("inc_open", b_io, "strlen (current_file) + strlen (name) + 2 > INC_BUF_SIZE"),
+                  ("inc_open", b_io, "strlen (inc_list[i]) + strlen (name) + 2 > INC_BUF_SIZE"),
+                  ("inc_open", b_io, "for (p = strchr (name, '.'); p; p = strchr (p + 1, '.'))"),
+                  ("inc_open", b_io, 'sprintf (buf, "%s/%s", inc_list[i], name)'),
                   ("save_binary", b_sb, "strlen (CONFIG_STR (__SAVE_BINARIES_DIR__)) + strlen (prog->name) + 2 > sizeof (file_name_buf)"),
                   ("load_binary", b_lb, "strlen (CONFIG_STR (__SAVE_BINARIES_DIR__)) + strlen (name) + 2 > sizeof (file_name_buf) / 2"),
                   ("load_binary", b_lb, "strlen (CONFIG_STR (__SAVE_BINARIES_DIR__)) + strlen (buf) + 2 > sizeof (file_name_buf) / 2")]
@@ -416,6 +444,13 @@ class C15(Prop):
             mk("ed-%s" % pol, [pl(pol)] + ["fx ed %s %s" % (br(a), br(b)) for a, b in PED])
             for e in EFUN2:
                 mk("%s-%s" % (e, pol), [pl(pol)] + ["fx %s %s %s" % (e, br(a), br(b)) for a, b in pairs])
+        for pol in POL_NEST:
+            mk("nest-1-%s" % pol[8:28], [pl(pol)] + ["fx %s %s" % (e, br(p)) for e in EFUN1 + EFUN1X
+                                                     for p in ["/d/f.txt", "/d/sub", "/../outside.txt", "/d/nofile"]])
+            mk("nest-2-%s" % pol[8:28], [pl(pol)] + ["fx %s %s %s" % (e, br(a), br(b)) for e in EFUN2
+                                                     for a, b in [("/d/f.txt", "/d/new"), ("/d/f.txt", "/d/sub"), ("/d", "/a")]] +
+               ["fx %s %s" % (e, br(p)) for e in EFUNS for p in PSAVE[:5]])
+            mk("nest-ed-%s" % pol[8:28], [pl(pol)] + ["es %s %s" % (br(f), c) for f, c in SESSIONS[:6] + SESSIONS[12:14]])
         for pol in POL_FULL + POL_FEW + ["ro", "wo", "raise", "odd=[neg]", "ABSENT"]:
             for e in EFUN1X:
                 mk("%s-%s" % (e, pol), [pl(pol)] + ["fx %s %s" % (e, br(p)) for p in GD1])
@@ -486,6 +521,12 @@ class C15(Prop):
             s += "/"
         return s
 
+    def rand_nested(self, rng):
+        g = rng.choice(["read_file", "file_size", "tail", "write_file"])
+        p = "/aa" if g == "write_file" else rng.choice(["/a/a", "/d/f.txt", "/d", "/d/inc.h", "/d/nofile", "/../outside.txt", "/aa", "/d/sub"])
+        k = rng.choice(["allow", "allow", "echo", "deny", "ro", "wo", "raise", "fixed,/d/f.txt", "fixed,/../x", "odd,float0"])
+        return "nested=[%s,%s,%s]" % (g, p, k)
+
     def rand_sys_path(self, rng):
         k = rng.below(10)
         if k < 5:
@@ -513,7 +554,8 @@ class C15(Prop):
                     base = rng.choice(INC_BASES + ["a/b/c/d.c", "sub/..x/y.c"])
                     lines.append("uinc1 %s %s" % (br(base), br(nm[:100])))
             elif k == 1:    # efun calls
-                pol = rng.choice(POL_FULL * 3 + POL_FEW + POL_ERR + POL_KIND + ["ABSENT", "fixed=" + br(self.rand_sys_path(rng)),
+                pol = rng.choice(POL_FULL * 3 + POL_FEW + POL_ERR + POL_KIND + POL_NEST + [self.rand_nested(rng)] * 2 +
+                                 ["ABSENT", "fixed=" + br(self.rand_sys_path(rng)),
                                                                      "raiseon=" + br(self.rand_sys_path(rng))])
                 absent = pol == "ABSENT"
                 lines.append(pl(pol))
@@ -543,17 +585,19 @@ class C15(Prop):
                         if len(p) >= 4:
                             lines.append("fx %s %s" % (rng.choice(EFUNS), br(p)))
                     if rng.chance(1, 6) and not absent:
-                        lines.append("policy " + rng.choice(POL_FULL + POL_FEW + POL_ERR))
+                        lines.append("policy " + rng.choice(POL_FULL + POL_FEW + POL_ERR + POL_NEST + [self.rand_nested(rng)]))
             elif k == 2 and rng.chance(1, 2):    # editing sessions
-                pol = rng.choice(POL_FULL + POL_KIND * 2 + POL_FEW + POL_ERR + ["ABSENT"])
+                pol = rng.choice(POL_FULL + POL_KIND * 2 + POL_FEW + POL_ERR + POL_NEST + ["ABSENT"])
                 lines.append(pl(pol))
                 names = ["/d/f.txt", "/d/out", "/d/sub/n", "/d/nofile", "out2", "/d", "/d/../x", "/a/a", "/../outside.txt", "/d/obj.c"]
                 for _ in range(6):
                     cs = []
                     for _ in range(rng.range(1, 8)):
-                        c = rng.choice(["a", "e", "E", "f", "r", "w", "W", "w", "x", "q", "Q", "w"])
+                        c = rng.choice(["a", "e", "E", "f", "r", "w", "W", "w", "x", "q", "Q", "w", "D"])
                         if c == "a":
                             cs.append("a:t%d" % rng.below(9))
+                        elif c == "D":
+                            cs.append("D:" + rng.choice(names + ["/../x", "//abs/x", "/d/..", "/d/dead", "/a/../b", "/d/sub/x"]))
                         elif c in ("x", "q", "Q") or rng.chance(1, 2):
                             cs.append(c)
                         elif rng.chance(1, 8):
